@@ -165,11 +165,19 @@ func (s *Sync) NewSyncer(peerInfo peer.AddrInfo) (*Syncer, error) {
 		urls[i] = u.JoinPath(IPNIPath)
 	}
 
+	altURLs := urls[1:]
+	if !plainHTTP {
+		// The libp2phttp client is bound to one server address (or to the
+		// stream transport), so requests to any other URL can only fail. Do not
+		// fail over to them.
+		altURLs = nil
+	}
+
 	return &Syncer{
 		client:   httpClient,
 		peerInfo: peerInfo,
 		rootURL:  *urls[0],
-		urls:     urls[1:],
+		urls:     altURLs,
 		sync:     s,
 
 		plainHTTP: plainHTTP,
